@@ -1,0 +1,20 @@
+//go:build verif
+
+package sqlx
+
+// Export shim for the verification harness in /verif (build tag verif).
+// Nothing here is compiled into normal builds.
+
+import (
+	"errors"
+)
+
+// VerifCause returns the driver error that Error wrapped together with its
+// query, or nil when err does not come from Error.
+func VerifCause(err error) error {
+	var qerr *queryError
+	if errors.As(err, &qerr) {
+		return qerr.err
+	}
+	return nil
+}
